@@ -2,6 +2,7 @@ import Oracle.Basic
 import Oracle.C01
 import Oracle.C11
 import Oracle.C06a
+import Oracle.C02
 import Oracle.C09
 import Oracle.C13
 import Oracle.C14
@@ -12,7 +13,7 @@ def dispatch (op : String) (args res : List String) : String :=
   else if op == "f64ofint" then handleF64Int args res
   else
     let handlers : List (String → List String → List String → Option String) :=
-      [Oracle.C01.handle, Oracle.C11.handle, Oracle.C06a.handle, Oracle.C09.handle,
+      [Oracle.C01.handle, Oracle.C02.handle, Oracle.C11.handle, Oracle.C06a.handle, Oracle.C09.handle,
        Oracle.C13.handle, Oracle.C14.handle]
     match handlers.findSome? (fun h => h op args res) with
     | some v => v
